@@ -303,9 +303,7 @@ def run(chk):
     conv = loader.load('core.conversions')
     gt = loader.load('conversion.graph.tof')
     gb = loader.load('conversion.graph.beamline')
-    chk.functions = loader.describe([conv.convert, conv.deduce_conversion_graph, conv.conversion_graph, conv._deduce_energy_mode,
-                                     conv._scatter_graph, conv._elastic_scatter_graph, conv._inelastic_scatter_graph, conv._reachable_by,
-                                     gt.elastic, gt.kinematic, gt.direct_inelastic, gt.indirect_inelastic, gb.beamline])
+    chk.functions = loader.describe_exprs(['conv.convert', 'conv.deduce_conversion_graph', 'conv.conversion_graph', 'conv._deduce_energy_mode', 'conv._scatter_graph', 'conv._elastic_scatter_graph', 'conv._inelastic_scatter_graph', 'conv._reachable_by', 'gt.elastic', 'gt.kinematic', 'gt.direct_inelastic', 'gt.indirect_inelastic', 'gb.beamline'], {**globals(), **locals()})
     jobs = [(o, t, s) for o in ORIGINS for t in ALL_TARGETS for s in (True, False) if t != o]
     run_jobs(chk, job, jobs)
     # model validation against the real convert (real-scipp subprocess): outcome class vs the same oracle
